@@ -598,10 +598,22 @@ type view struct {
 }
 
 func takeView(c *txcache.TxCache, senders [][]byte) *view {
-	v := &view{countTx: c.CountTx(), numBytes: uint64(c.NumBytes()), countSenders: c.CountSenders(), lenV: c.Len(), keys: c.Keys(),
+	v := &view{countTx: c.CountTx(), numBytes: uint64(c.NumBytes()), countSenders: c.CountSenders(), lenV: c.Len(), keys: ownKeys(c.Keys()),
 		lists: map[string][]*txcache.WrappedTransaction{}}
 	for _, s := range senders {
-		v.lists[string(s)] = c.GetTransactionsPoolForSender(string(s))
+		got := c.GetTransactionsPoolForSender(string(s))
+		v.lists[string(s)] = append([]*txcache.WrappedTransaction(nil), got...)
+		if got == nil {
+			v.lists[string(s)] = nil
+		}
+		// the returned slice is the caller's: it is reordered and truncated in place (a filter with the got[:0] idiom), which
+		// the pool must not notice at its next selection
+		for a, b := 0, len(got)-1; a < b; a, b = a+1, b-1 {
+			got[a], got[b] = got[b], got[a]
+		}
+		if len(got) > 1 {
+			got[len(got)-1] = got[0]
+		}
 	}
 	return v
 }
@@ -712,7 +724,16 @@ func (comp) Run(h *core.History, scratch string) *core.Result {
 				specs[string(t.hash)] = t
 			}
 			wasPooled := cache.Has(t.hash)
-			ok, addedFlag := cache.AddTx(t.wrapped())
+			w := t.wrapped()
+			if i%3 == 1 {
+				// an object that has been through another pool (or this one, before a Clear): the precomputed fields carry stale values,
+				// which AddTx must recompute from its own host
+				w.Fee, w.TransferredValue, w.FeePayer = big.NewInt(987654321), big.NewInt(5), []byte("stale-payer")
+				if t.gasLimit != 0 {
+					w.PricePerUnit = 77 // (with a gas limit of 0 precomputeFields leaves PricePerUnit alone: a fresh object has 0 there, so has this one)
+				}
+			}
+			ok, addedFlag := cache.AddTx(w)
 			after := takeView(cache, senders)
 			res.AddObs(append([]string{core.Lbl(1, core.L(core.Bool(ok), core.Bool(addedFlag)))}, after.tokens(senders)...)...)
 			res.Insert(i, judgeViews(after, senders, true), core.Lbl(30, "n1"), core.Lbl(31, "n1"), core.Lbl(32, "n1"))
@@ -1136,12 +1157,22 @@ func monitorViews(res *core.Result, i int, specs map[string]*txSpec, v *view, ca
 	}
 	// lookups agree with the lists
 	n := 0
+	var keeper core.Keeper
+	var visited []*txcache.WrappedTransaction
 	cache.ForEachTransaction(func(h []byte, w *txcache.WrappedTransaction) {
 		n++
+		keeper.See(h)
+		visited = append(visited, w)
 		if !listed[string(h)] {
 			res.Failf("C04", i, "ForEachTransaction visits %s which is in no list", h)
 		}
 	})
+	// the handler keeps the hashes it was given and uses them as scratch afterwards (they are copies: the pool must not notice)
+	for j, h := range keeper.Done(res, "C04", i, "ForEachTransaction", true) {
+		if j < len(visited) && visited[j] != nil && !bytes.Equal(visited[j].TxHash, h) {
+			res.Failf("C04", i, "ForEachTransaction handed the hash %s along with the transaction %s", h, visited[j].TxHash)
+		}
+	}
 	if n != len(listed) {
 		res.Failf("C04", i, "ForEachTransaction visits %d transactions, the lists hold %d", n, len(listed))
 	}
@@ -1419,4 +1450,22 @@ func monitorSelectSpec(res *core.Result, i int, cfg txcache.ConfigSourceMe, spec
 			}
 		}
 	}
+}
+
+// ownKeys: the caller of Keys() owns the listing (see core.OwnKeys); here without a Result at hand: copy, then overwrite the original
+func ownKeys(keys [][]byte) [][]byte {
+	cp := make([][]byte, len(keys))
+	for i, k := range keys {
+		cp[i] = append([]byte{}, k...)
+		_ = append(k, 0xE1, 0xE2, 0xE3, 0xE4)
+	}
+	for i, k := range keys {
+		if !bytes.Equal(k, cp[i]) {
+			cp[i] = append([]byte{}, k...) // appending to an earlier entry reached this one: keep what the listing now says (shows as a mismatch)
+		}
+		for j := range k {
+			k[j] ^= 0x5A
+		}
+	}
+	return cp
 }
